@@ -733,7 +733,7 @@ fn corpus_cases(o: &Opts) -> (Vec<Case16>, bool) {
 pub fn run(o: &Opts) {
     let mut st = Stats::new();
     let mut sh = Shards::new(&o.out, if o.thorough { o.shards * 6 } else { o.shards }, &format!("{} Run.Classify_C16.\nImport ListNotations.\nOpen Scope N_scope.", crate::c17::HEADER));
-    st.rule = "CSV statements generated from 1-8 chronological rows with a running balance per commodity, written under a random layout (columns shuffled with junk columns; fields by index / label / template; delimiter default , ; tab; 0-2 skipped head lines; four date formats; amount or credit/debit columns; optional category, note, balance, commodity, rate, secondary amount, secondary commodity, charge columns; plain / grouped / `$`-prefixed / commodity-code-prefixed / commodity-suffixed numbers; under the prefixed styles amount, credit, debit, balance, charge and secondary-amount cells carry the minus sign before the prefix (-$1.46, -USD 5) or after it ($-1,950.25, USD -5, USD-5), with or without grouping commas; occasional reversals written as a negative credit / debit and refunded (negative) charges; one row in five of those with a conversion states a rate of exactly one (1, 1.0, 1.00, 1.000, $1.00) under every conversion mode; one statement in six has one amount / credit / debit / balance / rate / secondary-amount / charge cell in a notation okane's number grammar does not know or with trailing junk: 6'540.35, 1 234.56 (space or no-break space), 12.50-, (12.50), +12.50, 1.234,56, 12,50, 1,23,456.78, 12..5, 12.50*, 12.50 EUR*, 5 USD EUR, --5, 1.5e0, 12.5x - which must be refused with the number error or booked as exactly that figure) x asset/liability x both row orders, with 0-4 rewrite rules; through load_from_yaml, select, import::import(Csv), to_double_entry, the printing of ImportCmd and report::process over funding + printed text; non-trivial = import succeeded, some amount is non-zero and at least one optional column is used; distinct by YAML + CSV".into();
+    st.rule = "CSV statements generated from 1-8 chronological rows (starting up to 12 days before a calendar boundary drawn on purpose - the days around New Year whose ISO week belongs to the neighbouring year, 1 January / 31 December, leap days, 28 February / 1 March of 1900 and 2100, month ends, years 1900-2100 - and running across it) with a running balance per commodity, free-text cells (payee, category, note, ignored columns; 3 in 8 for the cell of the first column, 1 in 8 elsewhere) beginning with # \" ' ; = + - @ space tab U+FEFF // % | or a comma, written under a random layout (columns shuffled with junk columns; fields by index / label / template; delimiter default , ; tab; 0-2 skipped head lines; four date formats; amount or credit/debit columns; optional category, note, balance, commodity, rate, secondary amount, secondary commodity, charge columns; plain / grouped / `$`-prefixed / commodity-code-prefixed / commodity-suffixed numbers; under the prefixed styles amount, credit, debit, balance, charge and secondary-amount cells carry the minus sign before the prefix (-$1.46, -USD 5) or after it ($-1,950.25, USD -5, USD-5), with or without grouping commas; occasional reversals written as a negative credit / debit and refunded (negative) charges; one row in five of those with a conversion states a rate of exactly one (1, 1.0, 1.00, 1.000, $1.00) under every conversion mode; one statement in six has one amount / credit / debit / balance / rate / secondary-amount / charge cell in a notation okane's number grammar does not know or with trailing junk: 6'540.35, 1 234.56 (space or no-break space), 12.50-, (12.50), +12.50, 1.234,56, 12,50, 1,23,456.78, 12..5, 12.50*, 12.50 EUR*, 5 USD EUR, --5, 1.5e0, 12.5x - which must be refused with the number error or booked as exactly that figure) x asset/liability x both row orders, with 0-4 rewrite rules; through load_from_yaml, select, import::import(Csv), to_double_entry, the printing of ImportCmd and report::process over funding + printed text; non-trivial = import succeeded, some amount is non-zero and at least one optional column is used; distinct by YAML + CSV".into();
     st.assumptions.push("numbers have at most 9 significant digits and scale <= 4; rates come from a pool of products of powers of 2 and 5 so that Decimal division is exact".into());
     st.assumptions.push("the csv crate's tokenisation (after skip.head, with the configured delimiter) and chrono's date parsing are oracles: the model receives the records and the day numbers they produce".into());
     st.assumptions.push("white space in note fields is ASCII".into());
